@@ -5,7 +5,7 @@ Theorems about M-SaveSteps (`DefconModel/SaveSteps.lean`): `Font.save` as a list
 with a failure injected after any prefix.  `failAt m w k` runs the first `k` steps of the save's
 plan and then the `finally` clause.
 -/
-import DefconModel.SaveSteps
+import DefconModel.Lemmas.SaveSteps
 
 namespace DefconModel.Props.C18
 open DefconModel DefconModel.SaveSteps
@@ -32,6 +32,12 @@ theorem runSteps_identity (m : Mode) (w : World) (steps : List Step) :
     obtain ⟨a', b', c', d', e'⟩ := ih (exec m w s)
     exact ⟨a'.trans a, b'.trans b, c'.trans c, d'.trans d, e'.trans e⟩
 
+theorem recover_font (m : Mode) (w : World) : (recover m w).font = w.font := by
+  unfold recover
+  split
+  · split <;> rfl
+  · rfl
+
 /-- Whatever step fails, in whatever mode: the font keeps its path and format, still reports
 the dirty state it had (so it is still dirty if anything was pending), and its in-memory content
 is untouched. -/
@@ -40,44 +46,51 @@ theorem identity_kept (m : Mode) (w : World) (k : Nat) :
     (failAt m w k).font.dirty = w.font.dirty ∧ (failAt m w k).font.comps = w.font.comps ∧
     (failAt m w k).font.glyphs = w.font.glyphs := by
   unfold failAt cleanup
+  simp only [recover_font]
   exact runSteps_identity m w _
 
-/-- … and no temporary directory is left behind, after a failure at any step and after success. -/
-theorem no_temp_left (m : Mode) (w : World) (k : Nat) : (failAt m w k).temp = none ∧ (save m w).temp = none := by
+/-- … and no temporary directory is left behind (neither the one the new UFO is written into nor the
+one the old destination is put aside in), after a failure at any step and after success. -/
+theorem no_temp_left (m : Mode) (w : World) (k : Nat) :
+    (failAt m w k).temp = none ∧ (failAt m w k).aside = none ∧ (save m w).temp = none ∧ (save m w).aside = none := by
   unfold failAt save finalize cleanup; simp
 
-/-! ### an existing destination at another path -/
+/-! ### an existing destination -/
 
-/-- steps that write into the temporary UFO leave every UFO on disk alone -/
-theorem exec_temp_disk (p : Nat) (w : World) (s : Step) (hs : s ≠ .removeDest p ∧ s ≠ .moveTemp p)
-    (hs2 : ∀ q, s = .removeDest q ∨ s = .moveTemp q → q = p) : (exec (.saveAsOver p) w s).disk = w.disk := by
+/-- steps that write into the temporary UFO leave every UFO on disk, and the (empty) aside place, alone -/
+theorem exec_temp_disk (p : Nat) (w : World) (s : Step)
+    (hs : s ≠ .moveAside p ∧ s ≠ .moveTemp p ∧ s ≠ .dropAside)
+    (hs2 : ∀ q, s = .moveAside q ∨ s = .moveTemp q → q = p) :
+    (exec (.saveAsOver p) w s).disk = w.disk ∧ (exec (.saveAsOver p) w s).aside = w.aside := by
   cases s with
-  | mkTemp => rfl
+  | mkTemp => exact ⟨rfl, rfl⟩
   | writeComp i => simp [exec, target, putTarget]
-  | openGlyphSet => rfl
+  | openGlyphSet => exact ⟨rfl, rfl⟩
   | writeGlyph g => simp [exec, target, putTarget]
   | writeContents => simp [exec, target, putTarget]
-  | removeDest q => have := hs2 q (Or.inl rfl); subst this; exact absurd rfl hs.1
-  | moveTemp q => have := hs2 q (Or.inr rfl); subst this; exact absurd rfl hs.2
+  | moveAside q => have := hs2 q (Or.inl rfl); subst this; exact absurd rfl hs.1
+  | moveTemp q => have := hs2 q (Or.inr rfl); subst this; exact absurd rfl hs.2.1
+  | dropAside => exact absurd rfl hs.2.2
 
 theorem runSteps_temp_disk (p : Nat) (w : World) (steps : List Step)
-    (h : ∀ s ∈ steps, s ≠ .removeDest p ∧ s ≠ .moveTemp p)
-    (h2 : ∀ s ∈ steps, ∀ q, s = .removeDest q ∨ s = .moveTemp q → q = p) :
-    (runSteps (.saveAsOver p) w steps).disk = w.disk := by
+    (h : ∀ s ∈ steps, s ≠ .moveAside p ∧ s ≠ .moveTemp p ∧ s ≠ .dropAside)
+    (h2 : ∀ s ∈ steps, ∀ q, s = .moveAside q ∨ s = .moveTemp q → q = p) :
+    (runSteps (.saveAsOver p) w steps).disk = w.disk ∧ (runSteps (.saveAsOver p) w steps).aside = w.aside := by
   unfold runSteps
   induction steps generalizing w with
-  | nil => rfl
+  | nil => exact ⟨rfl, rfl⟩
   | cons s rest ih =>
     simp only [List.foldl_cons]
-    rw [ih _ (fun x hx => h x (by simp [hx])) (fun x hx => h2 x (by simp [hx]))]
-    exact exec_temp_disk p w s (h s (by simp)) (h2 s (by simp))
+    obtain ⟨a, b⟩ := ih (exec (.saveAsOver p) w s) (fun x hx => h x (by simp [hx])) (fun x hx => h2 x (by simp [hx]))
+    obtain ⟨c, d⟩ := exec_temp_disk p w s (h s (by simp)) (h2 s (by simp))
+    exact ⟨a.trans c, b.trans d⟩
 
-/-- the plan of an overwriting save-as ends with "remove destination, move temp in"; everything
-before writes only into the temporary UFO -/
+/-- the plan of an overwriting save-as ends with "put the destination aside, move the temporary UFO in,
+drop what was put aside"; everything before writes only into the temporary UFO -/
 theorem plan_over_prefix (f : Font) (p : Nat) :
-    ∃ pre, plan f (.saveAsOver p) = pre ++ [.removeDest p, .moveTemp p] ∧
-      (∀ s ∈ pre, s ≠ .removeDest p ∧ s ≠ .moveTemp p) ∧
-      (∀ s ∈ pre, ∀ q, s = .removeDest q ∨ s = .moveTemp q → q = p) := by
+    ∃ pre, plan f (.saveAsOver p) = pre ++ [.moveAside p, .moveTemp p, .dropAside] ∧
+      (∀ s ∈ pre, s ≠ .moveAside p ∧ s ≠ .moveTemp p ∧ s ≠ .dropAside) ∧
+      (∀ s ∈ pre, ∀ q, s = .moveAside q ∨ s = .moveTemp q → q = p) := by
   refine ⟨[Step.mkTemp] ++
       ((List.range f.comps.length).filter (fun i => isSaveAs (.saveAsOver p) || f.compDirty.getD i false)).map Step.writeComp ++
       [Step.openGlyphSet] ++
@@ -90,37 +103,73 @@ theorem plan_over_prefix (f : Font) (p : Nat) :
     simp only [List.mem_append, List.mem_cons, List.mem_map, List.mem_singleton, List.not_mem_nil, or_false] at hs
     rcases hs with (((rfl | ⟨i, _, rfl⟩) | rfl) | ⟨g, _, rfl⟩) | rfl <;> simp at hq
 
-/-- Full statement: a destination at another path is untouched by a failure at ANY step. -/
-def OtherDestinationUntouched : Prop :=
-  ∀ (w : World) (p k : Nat), p ≠ w.font.path → k < (plan w.font (.saveAsOver p)).length →
-    lookup (failAt (.saveAsOver p) w k).disk p = lookup w.disk p
-
-/-- It holds for every failure before the final replace (every write, close, …): the whole disk
-is exactly as it was. -/
-theorem other_destination_untouched_partial (w : World) (p k : Nat)
-    (hk : k + 2 ≤ (plan w.font (.saveAsOver p)).length) :
+/-- every failure before the final replace (every write, close, …) leaves the whole disk exactly as it was -/
+theorem destination_untouched_before_replace (w : World) (p k : Nat) (ha : w.aside = none)
+    (hk : k + 3 ≤ (plan w.font (.saveAsOver p)).length) :
     (failAt (.saveAsOver p) w k).disk = w.disk := by
   obtain ⟨pre, hplan, h1, h2⟩ := plan_over_prefix w.font p
-  unfold failAt cleanup
-  simp only
   have hlen : k ≤ pre.length := by
     rw [hplan] at hk; simp at hk; omega
   have htake : (plan w.font (.saveAsOver p)).take k = pre.take k := by
     rw [hplan, List.take_append_of_le_length hlen]
-  rw [htake]
-  exact runSteps_temp_disk p w _ (fun s hs => h1 s (List.mem_of_mem_take hs)) (fun s hs => h2 s (List.mem_of_mem_take hs))
+  obtain ⟨hd, has⟩ := runSteps_temp_disk p w (pre.take k) (fun s hs => h1 s (List.mem_of_mem_take hs))
+    (fun s hs => h2 s (List.mem_of_mem_take hs))
+  unfold failAt cleanup
+  simp only [htake]
+  unfold recover
+  rw [has, ha]
+  exact hd
 
-/-- … and fails in the window between "destination removed" and "temporary UFO moved in"
-(finding F20). -/
+/-- **A destination is untouched by a failure at ANY step that can fail** (every step but the last one,
+dropping what was put aside, which ignores errors): every UFO on disk reads as before — the one at the
+destination too, because a destination that was put aside is put back when the new UFO cannot be moved in.
+(The window between "destination removed" and "temporary UFO moved in" was finding F20; repaired in /repo.) -/
+theorem destination_untouched (w : World) (p k q : Nat) (ha : w.aside = none)
+    (hk : k + 1 < (plan w.font (.saveAsOver p)).length) :
+    lookup (failAt (.saveAsOver p) w k).disk q = lookup w.disk q := by
+  obtain ⟨pre, hplan, h1, h2⟩ := plan_over_prefix w.font p
+  have hlen : k ≤ pre.length + 1 := by
+    rw [hplan] at hk; simp at hk; omega
+  by_cases hk1 : k ≤ pre.length
+  · rw [destination_untouched_before_replace w p k ha (by rw [hplan]; simp; omega)]
+  · have hke : k = pre.length + 1 := by omega
+    have htake : (plan w.font (.saveAsOver p)).take k = pre ++ [.moveAside p] := by
+      rw [hplan, hke, List.take_append]
+      simp [List.take_of_length_le]
+    obtain ⟨hd, has⟩ := runSteps_temp_disk p w pre h1 h2
+    unfold failAt cleanup
+    simp only [htake]
+    have hrun : runSteps (.saveAsOver p) w (pre ++ [.moveAside p]) =
+        exec (.saveAsOver p) (runSteps (.saveAsOver p) w pre) (.moveAside p) := by
+      unfold runSteps; simp [List.foldl_append]
+    rw [hrun]
+    simp only [exec, recover, hd]
+    cases hl : lookup w.disk p with
+    | none => simp only; exact lookup_remove_of_none w.disk p q hl
+    | some u =>
+      simp only [lookup_remove_self, Option.isNone_none, if_true]
+      by_cases hq : q = p
+      · subst hq; rw [lookup_store_self, hl]
+      · rw [lookup_store_ne _ _ _ _ hq, lookup_remove_ne _ _ _ hq]
+
+/-- the statement as the property puts it -/
+def DestinationUntouched : Prop :=
+  ∀ (w : World) (p k : Nat), w.aside = none → k + 1 < (plan w.font (.saveAsOver p)).length →
+    ∀ q, lookup (failAt (.saveAsOver p) w k).disk q = lookup w.disk q
+
+theorem destination_untouched_all : DestinationUntouched := fun w p k ha hk q => destination_untouched w p k q ha hk
+
+/-- the former F20 witness: an overwriting save-as of a font at path 1 onto the UFO at path 2 -/
 def w20 : World :=
   { font := { comps := [7], compDirty := [true], glyphs := [], glyphDirty := [], path := 1, format := 3, dirty := true },
     disk := [(1, { comps := [5] }), (2, { comps := [9] })] }
 
-theorem other_destination_violated : ¬ OtherDestinationUntouched := by
-  intro h
-  have := h w20 2 5 (by decide) (by decide)
-  revert this
-  decide
+/-- its plan has seven steps; a failure at any of the six that can fail leaves path 2 as it was
+(before the repair the failure between removing and moving in, k = 5, lost it) … -/
+example : (plan w20.font (.saveAsOver 2)).length = 7 := by decide
+example : ∀ k, k < 6 → lookup (failAt (.saveAsOver 2) w20 k).disk 2 = some { comps := [9] } := by decide
+/-- … and the completed save installs the new UFO there -/
+example : lookup (save (.saveAsOver 2) w20).disk 2 = some { comps := [7] } := by decide
 
 /-! ### retry after a failure -/
 
@@ -158,10 +207,12 @@ theorem retry_violated : ¬ RetryPersists := by
 
 /-- What does hold: a failure before the first write leaves the world exactly as it was (so the
 retry is an ordinary save). -/
-theorem retry_persists_partial (m : Mode) (w : World) (h : w.temp = none) (hg : w.gsContents = []) :
-    failAt m w 0 = w := by
-  unfold failAt cleanup runSteps
+theorem retry_persists_partial (m : Mode) (w : World) (h : w.temp = none) (ha : w.aside = none)
+    (hg : w.gsContents = []) : failAt m w 0 = w := by
+  unfold failAt cleanup runSteps recover
   cases w with
-  | mk f d t g => simp at h hg; subst h; subst hg; simp
+  | mk f d t a g =>
+    simp only at h ha hg; subst h; subst ha; subst hg
+    cases m <;> simp
 
 end DefconModel.Props.C18
